@@ -4,6 +4,7 @@ package knxnet
 
 import (
 	"context"
+	"errors"
 	"net"
 	"sync"
 	"time"
@@ -44,26 +45,26 @@ func VerifWriteFail(on bool) {
 	}
 }
 
-func VerifConnWrites() int   { return VerifConn.writes }
-func VerifConnLast() []byte  { return VerifConn.last }
-func VerifConnClosed() int   { return VerifConn.closed }
-func VerifNetWrites() int    { return verifNetWrites() }
+func VerifConnWrites() int       { return VerifConn.writes }
+func VerifConnLast() []byte      { return VerifConn.last }
+func VerifConnClosed() int       { return VerifConn.closed }
+func VerifNetWrites() int        { return verifNetWrites() }
 func VerifNetWrite(i int) []byte { return verifNetWrite(i) }
-func VerifNetClosed() int    { return verifNetClosed() }
+func VerifNetClosed() int        { return verifNetClosed() }
 
 func verifDialTunnelUDP(address string) (*TunnelSocket, error) {
 	VerifDials++
-	return &TunnelSocket{conn: VerifConn, inbound: VerifInbound}, nil
+	return &TunnelSocket{VerifConn, VerifInbound}, nil // positional, as the library itself builds it: no field is named
 }
 
 func verifDialTunnelTCP(address string) (*TunnelSocket, error) {
 	VerifDials++
-	return &TunnelSocket{conn: VerifConn, inbound: VerifInbound}, nil
+	return &TunnelSocket{VerifConn, VerifInbound}, nil // positional, as the library itself builds it: no field is named
 }
 
 func verifListenRouter(ifi *net.Interface, multicastAddress string, loop bool) (*RouterSocket, error) {
 	VerifDials++
-	return &RouterSocket{conn: &net.UDPConn{}, addr: &net.UDPAddr{Port: 3671}, inbound: VerifInbound}, nil
+	return &RouterSocket{&net.UDPConn{}, &net.UDPAddr{Port: 3671}, VerifInbound}, nil
 }
 
 func verifHostInfoFromAddress(address net.Addr) (HostInfo, error) {
@@ -110,3 +111,38 @@ func VerifContextWithCancel(parent context.Context) (context.Context, context.Ca
 	c := &verifCtx{done: make(chan struct{})}
 	return c, func() { c.finish(context.Canceled) }
 }
+
+// c15Conn is a net.Conn that records what is written.
+type c15Conn struct {
+	writes   int
+	last     []byte
+	closed   int
+	local    net.Addr
+	onWrite  func([]byte) // environment hook of the black-box tunnel harnesses (package knx)
+	failFrom int          // fail every write from this one on (0: never; n: the n-th write and later)
+}
+
+func (c *c15Conn) Read(b []byte) (int, error) { return 0, nil }
+func (c *c15Conn) Write(b []byte) (int, error) {
+	if c.closed > 0 || (c.failFrom > 0 && c.writes+1 >= c.failFrom) {
+		return 0, errC15Write // a closed connection refuses writes, as the kernel's does
+	}
+	c.writes++
+	c.last = append([]byte(nil), b...)
+	if c.onWrite != nil {
+		c.onWrite(c.last)
+	}
+	return len(b), nil
+}
+
+var errC15Write = errors.New("verif: write failed")
+
+func (c *c15Conn) Close() error {
+	c.closed++
+	return nil
+}
+func (c *c15Conn) LocalAddr() net.Addr                { return c.local }
+func (c *c15Conn) RemoteAddr() net.Addr               { return nil }
+func (c *c15Conn) SetDeadline(t time.Time) error      { return nil }
+func (c *c15Conn) SetReadDeadline(t time.Time) error  { return nil }
+func (c *c15Conn) SetWriteDeadline(t time.Time) error { return nil }
